@@ -55,6 +55,10 @@ type RTPair struct {
 	Sources func(c *Checker) []*Source
 	// ParserPreds: boolean facts about the parser's other parameters.
 	ParserPreds map[string]bool
+	// SourceRule: an extra obligation evaluated on every source (key suffix, ok detail); a non-empty bad string is a
+	// violation on that source.
+	SourceRuleKey string
+	SourceRule    func(c *Checker, src *Source) (bad string)
 	// SkipSource: sources outside the situation this pair is about (reason returned); they are not composed.
 	SkipSource func(src *Source) string
 	// ExactLen: the parser's iterator holds exactly the emitted bytes.
@@ -125,7 +129,7 @@ func (c *Checker) a3(r *report.Report, p RTPair) {
 	fields := map[string]*fieldAgg{}
 	var order []string
 	nsrc, ncomp := 0, 0
-	var accBad, consBad []string
+	var accBad, consBad, ruleBad []string
 	assumed := map[string]bool{}
 	deadline := time.Now().Add(4 * time.Minute)
 	for i := range ws.Outcomes {
@@ -170,6 +174,11 @@ func (c *Checker) a3(r *report.Report, p RTPair) {
 		}
 		if os.Getenv("ASTVERIF_PROGRESS") != "" {
 			fmt.Fprintf(os.Stderr, "A3 %s source facts=%v eq=%v\n", p.Name, src.St.Facts, p.WriterEq)
+		}
+		if p.SourceRule != nil {
+			if bad := p.SourceRule(c, src); bad != "" {
+				ruleBad = append(ruleBad, src.Name+": "+bad)
+			}
 		}
 		nsrc++
 		for _, a := range src.Computed {
@@ -243,6 +252,14 @@ func (c *Checker) a3(r *report.Report, p RTPair) {
 	} else {
 		sort.Strings(accBad)
 		r.Bad("A3", key+"/accepted", pos, fmt.Sprintf("%d of %d writer outcomes: %s", len(accBad), nsrc, clip(accBad[0], 2500)))
+	}
+	if p.SourceRule != nil {
+		if len(ruleBad) == 0 {
+			r.OK("A3", key+"/"+p.SourceRuleKey, pos, fmt.Sprintf("holds on all %d writer outcomes", nsrc))
+		} else {
+			sort.Strings(ruleBad)
+			r.Bad("A3", key+"/"+p.SourceRuleKey, pos, fmt.Sprintf("%d of %d writer outcomes: %s", len(ruleBad), nsrc, clip(ruleBad[0], 900)))
+		}
 	}
 	if len(consBad) == 0 {
 		r.OK("A3", key+"/consumed", pos, "the parser consumes exactly what the writer emitted (or the declared part of it)")
